@@ -22,7 +22,7 @@ def gen_strategy_scenario(rng, style=None, with_liq=True):
     n = rng.choice([1, 2, 3, 5, 8, 12])
     style = style or rng.choice(["calm", "jumpy", "const", "const"])
     prices = B.gen_prices(rng, n, style)
-    ds = B.dataset_from(prices, n)
+    ds = B.dataset_from(prices, n, B.gen_date_base(rng))
     # how the Penelope is loaded: by date (as the crate's own tests do), or one symbol at a time — then every date
     # after the first symbol's is met again out of order; add_quote must not list it twice. Done only when the
     # symbol loaded first is quoted on every date, so the dates still first appear in increasing order.
